@@ -2,7 +2,115 @@
 use crate::ast::*;
 use crate::e1::*;
 use crate::fw::*;
+use crate::model::Model;
+use crate::props::c02::corpus_files;
+use crate::q::Universe;
+use crate::subj::{cur, Subj};
 use serde_json::{json, Value};
+
+/// MS-F: the AST of a corpus file is taken from the implementation's own record iterator (trusted only as far
+/// as C05/C06 check it); error items become noise lines.
+fn corpus_ast(bytes: &'static [u8]) -> Vec<Line> {
+    let mut v = Vec::new();
+    for r in cur::ProguardMapping::new(bytes).iter() {
+        v.push(match r {
+            Ok(cur::ProguardRecord::Class { original, obfuscated }) => Line::Class { orig: original, obf: obfuscated },
+            Ok(cur::ProguardRecord::Header { key, value }) => Line::Header { key, value },
+            Ok(cur::ProguardRecord::Field { ty, original, obfuscated }) => Line::Field { ty, orig: original, obf: obfuscated },
+            Ok(cur::ProguardRecord::Method { ty, original, obfuscated, arguments, original_class, line_mapping }) => {
+                let (range, orig) = match line_mapping {
+                    None => (None, Orig::None),
+                    Some(lm) => (
+                        Some((lm.startline as u64, lm.endline as u64)),
+                        match (lm.original_startline, lm.original_endline) {
+                            (None, _) => Orig::None,
+                            (Some(a), None) => Orig::S(a as u64),
+                            (Some(a), Some(b)) => Orig::SE(a as u64, b as u64),
+                        },
+                    ),
+                };
+                Line::Method { range, ty, cls: original_class, name: original, args: arguments, orig, obf: obfuscated }
+            }
+            Err(_) => Line::Noise(b"<error item>"),
+        });
+    }
+    v
+}
+
+struct CorpusFile {
+    name: String,
+    bytes: &'static [u8],
+    lines: Vec<Line>,
+    model: Model,
+    /// (start, end) line ranges of the class blocks
+    blocks: Vec<(usize, usize)>,
+}
+
+fn load_corpus() -> Vec<CorpusFile> {
+    let mut v = Vec::new();
+    for (name, b) in corpus_files() {
+        let bytes: &'static [u8] = leak_bytes(&b);
+        let lines = corpus_ast(bytes);
+        let model = Model::fold_indexed(&lines);
+        let mut blocks = Vec::new();
+        let mut start: Option<usize> = None;
+        for (i, l) in lines.iter().enumerate() {
+            if matches!(l, Line::Class { .. }) {
+                if let Some(s) = start {
+                    blocks.push((s, i));
+                }
+                start = Some(i);
+            }
+        }
+        if let Some(s) = start {
+            blocks.push((s, lines.len()));
+        }
+        v.push(CorpusFile { name, bytes, lines, model, blocks });
+    }
+    v
+}
+
+/// every class block of a corpus file: local universe (the block's names and constants) against the whole file's subjects
+fn visit_corpus(prop: Prop, cf: &CorpusFile, shard: usize, nshards: usize, acc: &mut Acc, budget: &Budget) {
+    let mut ab = Aligned::new(&[]);
+    let r = guarded(|| {
+        cur::with_subjects(cf.bytes, &mut ab, |m, mp, c, _| {
+            let subjects: [&dyn Subj; 3] = [m, mp, c];
+            for (bi, (s, e)) in cf.blocks.iter().enumerate() {
+                if bi % nshards != shard {
+                    continue;
+                }
+                if budget.exceeded() {
+                    acc.notes.push(format!("wall-clock cap hit inside corpus file {}", cf.name));
+                    return;
+                }
+                let block_lines = &cf.lines[*s..*e];
+                let mut uni = Universe::from_ast(block_lines, false);
+                // corpus constants are large: query each constant +-1 and a few fixed lines instead of 0..=max
+                let mut lines: Vec<usize> = vec![0, 1, usize::MAX];
+                for l in block_lines {
+                    if let Line::Method { range: Some((a, b)), .. } = l {
+                        for d in [a.saturating_sub(1), *a, a + 1, b.saturating_sub(1), *b, b + 1, (a + b) / 2] {
+                            if !lines.contains(&(d as usize)) {
+                                lines.push(d as usize);
+                            }
+                        }
+                    }
+                }
+                uni.lines = lines;
+                acc.states += 1;
+                acc.count("states[MS-F corpus class blocks]", 1);
+                let case = |q: Value, exp: Value, got: Value| json!({"kind":"corpus","file":cf.name,"block":bi,"oracle":prop.id(),"query":q,"expected":exp,"observed":got});
+                run_oracle(prop, &cf.model, &uni, &subjects, acc, cf.bytes.len(), &case);
+            }
+        })
+    });
+    match r {
+        Ok(Ok(())) => {}
+        Ok(Err(e)) => acc.violation("pipeline:corpus", cf.bytes.len(), || (format!("{}: {}", cf.name, e), json!({"kind":"corpus","file":cf.name}))),
+        Err(p) => acc.violation(format!("panic:{}", panic_site(&p)), cf.bytes.len(), || (format!("{}: {}", cf.name, p), json!({"kind":"corpus","file":cf.name}))),
+    }
+}
 
 fn prop_of(id: &str) -> Prop {
     match id {
@@ -61,7 +169,19 @@ pub fn run(id: &str, tier: Tier) -> i32 {
             items.push((si, it));
         }
     }
+    // MS-F corpus: work items (usize::MAX - file index, shard)
+    let corpus = load_corpus();
+    let cshards = 48;
+    for ci in 0..corpus.len() {
+        for sh in 0..cshards {
+            items.push((usize::MAX - ci, sh));
+        }
+    }
     let acc = par_run(&items, &budget, |&(si, it), acc, budget| {
+        if si > spaces.len() {
+            visit_corpus(prop, &corpus[usize::MAX - si], it, cshards, acc, budget);
+            return;
+        }
         let sp = &spaces[si];
         let mut ctx = Ctx::new();
         let mut last_len = 0usize;
@@ -84,7 +204,7 @@ pub fn run(id: &str, tier: Tier) -> i32 {
             "C03" => "states = mapping histories; in every state all (class, method, parameter-string) triples of Q(M) are issued against mapper-with-index and cache (must equal model R10+R5) and the mapper without index (must be empty). distinct = distinct model answers; non-trivial = answers with >= 1 frame".into(),
             _ => "states = mapping histories / name tables; in every state every name of Q(M) (names in the file, each +-1 trailing character, empty, unknown) is looked up as class, throwable and (class, method); consistency clause evaluated on the implementation for every line of Q(M). distinct = distinct model answers; non-trivial = Some(..) answers".into(),
         },
-        bounds: json!({"scopes": spaces.iter().map(|s| s.describe_short()).collect::<Vec<_>>() }),
+        bounds: json!({"scopes": spaces.iter().map(|s| s.describe_short()).collect::<Vec<_>>(), "corpus": corpus.iter().map(|c| json!({"file": c.name, "class_blocks": c.blocks.len(), "queries": "per class block: the block's names (+ near misses) x every range boundary +-1, midpoints, 0, 1, 2^64-1"})).collect::<Vec<_>>() }),
         assumptions: vec![
             "reading I1: a sourceFile header affects the entries after it in the same class block".into(),
             "reading I2: 'followed by an entry' means the next parsed record".into(),
@@ -96,6 +216,20 @@ pub fn run(id: &str, tier: Tier) -> i32 {
 }
 
 pub fn recheck(id: &str, case: &Value) -> Vec<String> {
+    if case["kind"] == "corpus" {
+        let mut acc = Acc::new();
+        let b = Budget::new(3600);
+        for cf in load_corpus() {
+            if Some(cf.name.as_str()) == case["file"].as_str() {
+                let n = cf.blocks.len().max(1);
+                match case["block"].as_u64() {
+                    Some(bi) => visit_corpus(prop_of(id), &cf, bi as usize % n, n, &mut acc, &b),
+                    None => visit_corpus(prop_of(id), &cf, 0, 1, &mut acc, &b),
+                }
+            }
+        }
+        return acc.violations.keys().cloned().collect();
+    }
     let (lines, term) = file_from_json(case);
     let wide = case["wide"].as_bool().unwrap_or(false);
     let mut acc = Acc::new();
